@@ -122,6 +122,22 @@ def classes():
         # names interface A again: getInterfaces() yields it twice
         dbusInterfaces = [i_a]
 
+    class KLen(KA):
+        # container-like object: falsy while it holds no items (the harness changes _items over the history)
+        _items = ()
+
+        def _init(self, vals):
+            KA._init(self, vals)
+            self._items = ['item'] * vals.get('items', 0)
+
+        def __len__(self):
+            return len(self._items)
+
+    class KFalse(Base):
+        # an exported object that is always falsy
+        def __bool__(self):
+            return False
+
     id_props = {ID_IFACE: ['ident'], PROPS_IFACE: []}
     a_props = {'org.verif.A': ['label', 'level']}
     b_props = {'org.verif.B': ['count']}
@@ -132,12 +148,14 @@ def classes():
         'KABC': (KABC, ['org.verif.sub.C', 'org.verif.A', 'org.verif.B', ID_IFACE, PROPS_IFACE],
                  dict(id_props, **a_props, **b_props, **{'org.verif.sub.C': []})),
         'KDup': (KDup, ['org.verif.A', 'org.verif.A', ID_IFACE, PROPS_IFACE], dict(id_props, **a_props)),
+        'KLen': (KLen, ['org.verif.A', ID_IFACE, PROPS_IFACE], dict(id_props, **a_props)),
+        'KFalse': (KFalse, [ID_IFACE, PROPS_IFACE], dict(id_props)),
     }
     _CLASSES[key] = out
     return out
 
 
-KINDS = ['Base', 'KA', 'KAB', 'KABC', 'KDup']
+KINDS = ['Base', 'KA', 'KAB', 'KABC', 'KDup', 'KLen', 'KLen', 'KFalse']
 
 
 def expected_props(kind, ident, vals):
@@ -195,6 +213,7 @@ class World:
         self.conn = FakeConn()
         self.h = objects.DBusObjectHandler(self.conn)
         self.registry = {}      # ident -> (kind, path, expected props)
+        self.objs = {}          # ident -> the exported instance
         self.exported = {}      # path -> ident        (bookkeeping from the calls alone)
         self.next_ident = 1
         self.serial = 100
@@ -226,6 +245,7 @@ class World:
         ident = self.next_ident
         self.next_ident += 1
         obj = cls(path, ident, vals)
+        self.objs[ident] = obj
         self.registry[ident] = (kind, path, expected_props(kind, ident, vals))
         self.conn.take()
         try:
@@ -247,6 +267,14 @@ class World:
         sent = self.remote_view(self.conn.take())
         was = self.exported.pop(path, None)
         return was, exc, sent
+
+    def churn(self, step_no):
+        """Container-like exported objects gain and lose items over the history (0, 1 or 2 items):
+        what they hold is no API call on the handler and must not change what is exported."""
+        for ident in self.exported.values():
+            obj = self.objs[ident]
+            if hasattr(obj, '_items'):
+                obj._items = ['item'] * ((step_no + ident) % 3)
 
     def call(self, path, iface, member, signature=None, body=None):
         from txdbus import message
@@ -497,6 +525,7 @@ def neighbours(universe):
 
 def gen_vals(rng):
     return {'label': rng.choice(['', 'x', 'hello', 'café', 'a/b']), 'secret': rng.randrange(-5, 5),
+            'items': rng.choice([0, 0, 1, 3]),
             'level': rng.choice([0, 1, -1, 2 ** 31 - 1]), 'count': rng.choice([0, 7, -2 ** 40, 2 ** 62])}
 
 
@@ -579,6 +608,8 @@ def run_history(ctx, stream, hist, lines, expect, judge=True, extra_every=7):
         expect.append((stream, hist, step_no, ['signals'], canon_signals(world, res[1], res[2])))
         if judge:
             judge_step(ctx, world, hist, step_no, op, res)
+        world.churn(step_no)
+        ctx.stat('falsy-exported=%d' % min(3, sum(1 for i in world.exported.values() if not world.objs[i])))
         # dict order of the table itself (insertion order is what the child order shows)
         lines.append('keys')
         expect.append((stream, hist, step_no, ['keys'], 'keys ' + strs(list(world.h.exports.keys()))))
@@ -668,7 +699,7 @@ def enumerated(max_len):
     """All histories up to max_len over a tiny universe with the root and a prefix-sharing pair."""
     uni = ['/', '/a/b', '/a/bc', '/a/b/c']
     vals = {'label': 'x', 'secret': 0, 'level': 1, 'count': 7}
-    alphabet = [['export', p, 'KA' if i % 2 else 'KAB', vals] for i, p in enumerate(uni)] + [['unexport', p] for p in uni]
+    alphabet = [['export', p, ['KAB', 'KLen', 'KFalse', 'KA'][i % 4], vals] for i, p in enumerate(uni)] + [['unexport', p] for p in uni]
 
     def rec(prefix, n):
         if n == 0:
@@ -709,7 +740,7 @@ def run(ctx):
 
     rng = ctx.rng
     # ---- the fixed universe with parents, children, grandchildren, prefix-sharing siblings, the root
-    n = ctx.scale(quick=16, thorough=160)
+    n = ctx.scale(quick=20, thorough=160)
     hs = []
     for i in range(n):
         uni = FIXED_UNIVERSE if i % 2 == 0 else sorted(rng.sample(FIXED_UNIVERSE, rng.randrange(4, 9)) + (['/'] if i % 4 == 1 else []))
@@ -718,7 +749,7 @@ def run(ctx):
     run_batch(ctx, 'history-fixed-universe', hs)
 
     # ---- random universes
-    n = ctx.scale(quick=30, thorough=400)
+    n = ctx.scale(quick=40, thorough=400)
     hs = []
     for i in range(n):
         uni, shape = gen_universe(rng)
